@@ -94,4 +94,6 @@ def k02_h2o2_product_eaten(f):
     return sp is not None and any(oracle.canon(tok) == "OO" for tok in sp[1].split(".")[1:])
 
 
-KNOWN_PREDICATES = {"k02_h2o2_product_eaten": k02_h2o2_product_eaten}
+# K02 was repaired in /repo 8d1e21d: the predicate is kept for the record but no longer registered, so a
+# return of the defect is reported as a violation.
+KNOWN_PREDICATES = {}
